@@ -917,6 +917,7 @@ func (h *c13H) stepwise(body []byte, top yobj, cur, target uint, one c13Run, wha
 			return
 		}
 		h.out.Class(fmt.Sprintf("frame-step-%02d", k+1))
+		h.leavesUsed(int(k), before, tree)
 	}
 	// the salted hash differs from run to run: its form was judged at step 5,
 	// its value is verified on the body Migrate returned
@@ -1110,4 +1111,73 @@ func (h *c13H) validDocs() {
 			h.mig(body, top, h.last, fmt.Sprintf("valid document of version %d, six clients in another order", ver), cls)
 		}
 	}
+}
+
+// c13LeafPattern is a leaf path with list positions written [].
+func c13LeafPattern(p []any) string {
+	parts := make([]string, len(p))
+	for i, e := range p {
+		if _, isIdx := e.(int); isIdx {
+			parts[i] = "[]"
+		} else {
+			parts[i] = fmt.Sprint(e)
+		}
+	}
+	return strings.Join(parts, ".")
+}
+
+// c13AllLeaves lists the leaf patterns of footprint f.
+func c13AllLeaves(f *c13FP, path string, out *[]string) {
+	switch {
+	case f.all:
+		*out = append(*out, path)
+	case f.elems != nil:
+		c13AllLeaves(f.elems, path+".[]", out)
+	default:
+		for _, e := range f.keys {
+			p := e.k
+			if path != "" {
+				p = path + "." + e.k
+			}
+			c13AllLeaves(e.f, p, out)
+		}
+	}
+}
+
+// leavesUsed records at which leaves of its footprint the real step k+1 made
+// a difference on this document: a leaf at which no step execution of the
+// whole run ever changed anything is declared wider than the step needs, and
+// the frame theorem is weaker there than it could be (note
+// footprint_leaves_never_changed; class footprint-tight when there is none).
+func (h *c13H) leavesUsed(k int, before, after yobj) {
+	if h.used == nil {
+		h.used = map[string]bool{}
+	}
+	var leaves [][]any
+	c13Leaves(c13Footprints[k], before, nil, &leaves)
+	for _, p := range leaves {
+		a, aok := c13Get(before, p)
+		b, bok := c13Get(after, p)
+		if aok != bok || !reflect.DeepEqual(a, b) {
+			h.used[fmt.Sprintf("%02d:%s", k+1, c13LeafPattern(p))] = true
+		}
+	}
+}
+
+func (h *c13H) leavesReport() {
+	var idle []string
+	for k, f := range c13Footprints {
+		var all []string
+		c13AllLeaves(f, "", &all)
+		for _, l := range all {
+			if key := fmt.Sprintf("%02d:%s", k+1, l); !h.used[key] {
+				idle = append(idle, key)
+			}
+		}
+	}
+	sort.Strings(idle)
+	if len(idle) == 0 {
+		h.out.Class("footprint-tight")
+	}
+	h.out.Note("footprint_leaves_never_changed", idle)
 }
